@@ -21,7 +21,7 @@ RULE = ("sampled: 9 entry classes x shapes (rectangular included) for every norm
 ASSUMPTIONS = ["LAPACK gesdd on the complex adjoint is the reference for the spectral norm",
                "magnitudes within 1e+-140"]
 SHARDS = {"quick": 4, "thorough": 12}
-DECIDING = ["fro_definition", "fro_entry_points", "norm1_definition", "norminf_definition", "norm2_definition",
+DECIDING = ["ord_spellings", "fro_definition", "fro_entry_points", "norm1_definition", "norminf_definition", "norm2_definition",
             "layout_independent", "homogeneity", "triangle", "submultiplicative", "equivalence", "unknown_ord_rejected"]
 
 UNKNOWN_ORDS = ["nuc", 3, -1, 0, "1", "2", "FRO", "f", -np.inf, 1.5, "one"]
@@ -289,5 +289,27 @@ def _ords(spec, ctx, R):
                 ctx.check("unknown_ord_rejected", False, site="matrix_norm", tags=[f"ord={o!r}"], detail={"ord": repr(o), "returned": repr(v)})
             except Exception as e:
                 ctx.check("unknown_ord_rejected", True, site="matrix_norm")
+        # every accepted spelling of an order, in the types a caller may hold it in, must give the norm of that order
+        O = _oracle_norms(A)
+        spell = {"inf": [np.inf, float("inf"), math.inf, np.float64("inf"), np.float32("inf"), "inf", np.str_("inf"), float("1e999")],
+                 "1": [1, np.int64(1), np.int32(1), np.uint8(1), 1.0, np.float64(1.0)],
+                 "2": [2, np.int64(2), np.int16(2), 2.0, np.float32(2.0)],
+                 "fro": [None, "fro", "F", np.str_("fro"), np.str_("F")]}
+        for key, forms in spell.items():
+            for o in forms:
+                for kw in (False, True):
+                    ctx.distinct("ord_form", key, repr(o), type(o).__name__, kw, m, n)
+                    try:
+                        v = float(U.matrix_norm(A, ord=o) if kw else U.matrix_norm(A, o))
+                    except Exception as e:
+                        ctx.check("ord_spellings", False, site=f"matrix_norm({key})", tags=[f"ord={type(o).__name__}:{o!r}"], detail={"exception": repr(e)})
+                        continue
+                    ctx.check("ord_spellings", abs(v - O[key]), 64 * (m * n + 4) * refq.EPS * max(O[key], 1e-300) + 1e-300, site=f"matrix_norm({key})",
+                              tags=[f"ord={type(o).__name__}:{o!r}"], detail={"returned": v, "oracle": O[key]})
+        try:
+            v = float(U.matrix_norm(A))
+            ctx.check("ord_spellings", abs(v - O["fro"]), 64 * (m * n + 4) * refq.EPS * max(O["fro"], 1e-300) + 1e-300, site="matrix_norm(omitted)")
+        except Exception as e:
+            ctx.check("ord_spellings", False, site="matrix_norm(omitted)", detail={"exception": repr(e)})
         ctx.check("args_unchanged", np.array_equal(before, refq.fa(A)), site="matrix_norm")
     ctx.sample({"unknown_ords": [repr(o) for o in UNKNOWN_ORDS]})
